@@ -36,6 +36,7 @@ class Contract:
         self.types: Dict[str, str] = kw.pop("types", {})  # local/param name -> annotation string
         self.attr_types: Dict[str, str] = kw.pop("attr_types", {})  # 'Class.attr' -> annotation string
         self.self_class: Optional[str] = kw.pop("self_class", None)
+        self.exact_events = kw.pop("exact_events", False)  # the call logs exactly the events listed in emits (no unknown ones)
         self.emits_after = kw.pop("emits_after", [])  # like emits, but arguments are evaluated after the call (may mention result)
         self.emits = kw.pop("emits", [])  # events appended when called by contract: list of (kind, [arg exprs], cond)
         self.verify = kw.pop("verify", True)  # False = assumed contract (trusted), listed in evidence
